@@ -98,6 +98,7 @@ Definition g_call (fx2 fx6 fx7 : bool) (eng : engine) (tbl : list sroute) (q : r
       guards [
         (1%Z, guard_F1 eng (rl_hosts d) q);
         (2%Z, negb fx2 && guard_F2_params s);
+        (3%Z, guard_F3 tbl s && negb (is_nil ps));   (* the renamed keys reach the path_params of the route *)
         (4%Z, guard_F4 (rl_methods d));
         (6%Z, on_params (guard_F6 fx6) (rl_slash d) q names segs ps);
         (7%Z, on_params (guard_F7 fx7) (rl_slash d) q names segs ps);
